@@ -131,7 +131,16 @@ func init() {
 		Technique: "deterministic simulation of writer call histories (seeded search over Write partitions, block rotation instants, redundant Close / use after Close) with the library reader over the recorded sink history as oracle",
 		Rule: "case = (WriterConfig passing Verify, payload recipe, call history: payload cut into Write calls incl. zero-length ones, Close, tail of calls after Close); " +
 			"non-trivial = payload non-empty or history has calls after Close; distinct = distinct scenario digests",
-		Gen: func(r *sim.Rng, tier string, idx int) *WCase { return genXZWCase(r, tier, idx, true) },
+		Gen: func(r *sim.Rng, tier string, idx int) *WCase {
+			c := genXZWCase(r, tier, idx, true)
+			if isVeryFarCase(tier, idx) {
+				pl, dc := veryFarPayload(r)
+				c.XZ.DictCap, c.XZ.Matcher, c.XZ.BlockSize, c.XZ.BufSize = dc, 0, 0, 4096
+				c.Payload, c.RDict = pl, 0
+				c.Ops = []Op{{K: "w", N: pl.Len()}, {K: "c"}}
+			}
+			return c
+		},
 		Run: func(c *WCase, x *sim.Ctx) *sim.Violation {
 			res := runWriter(c, x)
 			probeWCase(c, res, x)
